@@ -6,11 +6,12 @@ usage: tools/seedfast.py [id-substring ...] [-j N] [--all-props]"""
 import glob, hashlib, json, os, shutil, subprocess, sys
 from concurrent.futures import ThreadPoolExecutor
 HERE = os.path.dirname(os.path.dirname(os.path.abspath(__file__)))
+SEED_DIR = os.environ.get("SEED_DIR") or os.path.join(HERE, "seeded")      # SEED_DIR=/tmp/..: a round not imported yet
 PROPS = ["C01", "C02", "C03", "C04", "C05", "C06", "C07", "C08", "C09", "C10", "C11", "C12", "C13", "C14", "C15", "C17"]
 
 
 def one(sid, all_props):
-    d = os.path.join(HERE, "seeded", sid)
+    d = os.path.join(SEED_DIR, sid)
     meta = json.load(open(os.path.join(d, "meta.json")))
     scratch = f"/tmp/espada-seed-{sid}"
     shutil.rmtree(scratch, ignore_errors=True)
@@ -42,7 +43,7 @@ def main():
         del args[args.index("-j"):args.index("-j") + 2]
     all_props = "--all-props" in args
     pats = [a for a in args if not a.startswith("-")]
-    ids = sorted(os.path.basename(d) for d in glob.glob(os.path.join(HERE, "seeded", "*")) if os.path.exists(os.path.join(d, "patch.diff")))
+    ids = sorted(os.path.basename(d) for d in glob.glob(os.path.join(SEED_DIR, "*")) if os.path.exists(os.path.join(d, "patch.diff")))
     ids = [i for i in ids if not pats or any(p in i for p in pats)]
     missed = []
     with ThreadPoolExecutor(jobs) as ex:
